@@ -114,7 +114,11 @@ func TestVerifC04(t *testing.T) {
 			for k := range hs {
 				h0.st.SetForwarding(ifis[k].Name, cur[k])
 			}
-			prom := vNewProm(h0.st, config.Config{Interfaces: ifis, Debug: config.Debug{Address: ":0", Prometheus: true}}, nil)
+			// a monitoring interface listed after the advertising ones: it sends no RA,
+			// so no misconfiguration may ever be reported for it, whatever its
+			// neighbours in the list are doing
+			promIfis := append(append([]config.Interface(nil), ifis...), config.Interface{Name: "vmon9", Monitor: true})
+			prom := vNewProm(h0.st, config.Config{Interfaces: promIfis, Debug: config.Debug{Address: ":0", Prometheus: true}}, nil)
 			hooks := make([][]*ndp.RouterAdvertisement, nIf)
 			for k, h := range hs {
 				k, h := k, h
@@ -182,6 +186,12 @@ func TestVerifC04(t *testing.T) {
 							}
 							gens = append(gens, gen{name, h0.tr.Now(), "scrape", 0, cur[kk], nil})
 						}
+						for key := range all {
+							if strings.HasPrefix(key, "corerad_advertiser_") && strings.Contains(key, "interface=vmon9") {
+								viol = "scrape: the monitoring interface vmon9 sends no RA but has the sample " + key
+							}
+						}
+						r.Count("non_advertising_interface_scrapes", 1)
 					case 4: // debug API
 						h0.settle()
 						code, body := prom.get("/_/api/interfaces")
@@ -190,7 +200,7 @@ func TestVerifC04(t *testing.T) {
 							break
 						}
 						list, err := vAPIInterfaces(body)
-						if err != nil || len(list) != nIf {
+						if err != nil || len(list) != nIf+1 {
 							viol = fmt.Sprintf("API body: %v / %d interfaces", err, len(list))
 							break
 						}
